@@ -154,96 +154,7 @@ def degree_of(p: Poly):
     return out
 
 
-def block_diag(ctx, interp, bm_term, where, tag):
-    """bmat(reshape(object_array(list), (m, m)))  ->  (block value, m) if the list puts the block on the diagonal"""
-    arg = bm_term.args[0] if bm_term.args else None
-    if not (isinstance(arg, Term) and arg.op == "m.reshape"):
-        ctx.inconclusive("LAYOUT", f"{tag}.blocks", "block layout not recognised", where, witness=vstr(arg)[:200])
-        return None
-    arr = arg.args[0]
-    shape = arg.args[1:]
-    if len(shape) == 1 and isinstance(shape[0], TupleV):
-        shape = shape[0].items
-    if not (isinstance(arr, Term) and arr.op == "object_array" and isinstance(arr.args[0], ListV) and len(shape) == 2 and
-            all(isinstance(x, Num) for x in shape)):
-        ctx.inconclusive("LAYOUT", f"{tag}.blocks", "block list not recognised", where, witness=vstr(arg)[:200])
-        return None
-    nr, nc = shape[0].p, shape[1].p
-    items = arr.args[0].items
-    # expected skeleton: Rep([Elem(A), Rep([Elem(None)], c)], K-1), Elem(A)
-    ok = len(items) == 2 and isinstance(items[0], Rep) and isinstance(items[1], Elem)
-    if ok:
-        rep = items[0]
-        inner = rep.items
-        ok = len(inner) == 2 and isinstance(inner[0], Elem) and isinstance(inner[1], Rep) and len(inner[1].items) == 1 and \
-            isinstance(inner[1].items[0], Elem) and isinstance(inner[1].items[0].value, Const) and inner[1].items[0].value.v is None
-    if not ok:
-        # generic: compute from lengths whether it can be block-diagonal at all
-        ln = items_len(items)
-        ctx.inconclusive("LAYOUT", f"{tag}.blocks", "block list skeleton not recognised", where, witness=items_str(items)[:300])
-        return None
-    A = inner[0].value
-    c = inner[1].count            # number of None after each block
-    K = rep.count + 1             # number of blocks
-    period = c + 1
-    total = rep.count * period + 1
-    ctx.instance("LAYOUT", 3)
-    good = True
-    if vkey(items[1].value) != vkey(A):
-        ctx.violate("LAYOUT", f"{tag}.blocks.same", "the last diagonal block differs from the others", where, "my_blocks", witness=vstr(items[1].value)[:200])
-        good = False
-    if not (nr == nc):
-        ctx.violate("LAYOUT", f"{tag}.blocks.square", "block array is not square", where, "reshape", witness=f"{nr.pretty()} x {nc.pretty()}")
-        good = False
-    if not (total == nr * nc):
-        ctx.violate("LAYOUT", f"{tag}.blocks.length", "length of the block list does not equal rows*cols of the block array", where,
-                    "my_blocks[:-n]", witness=f"length {total.pretty()} vs {(nr * nc).pretty()}")
-        good = False
-    if not (period == nc + 1 and K == nr):
-        ctx.violate("LAYOUT", f"{tag}.blocks.diagonal", "blocks do not land on the diagonal: block k sits at flat position "
-                    f"k*{period.pretty()}, i.e. row (k*{period.pretty()}) div {nc.pretty()}, which is (k,k) only if the period is "
-                    "cols+1", where, "my_blocks.extend([None] * n)", witness=f"period {period.pretty()}, cols {nc.pretty()}, blocks {K.pretty()}, rows {nr.pretty()}")
-        good = False
-    if good:
-        ctx.ok("LAYOUT", f"{tag}.blocks", f"{K.pretty()} copies of the unit-sphere block on the diagonal of a {nr.pretty()}x{nc.pretty()} block array",
-               where, derived=items_str(items)[:200])
-        return A, nr
-    return None
-
-
-def mask_bounds(cond):
-    """((lo_r <= row) & (row < hi_r) & (lo_c <= col) & (col < hi_c)) -> dict role -> (lo, hi)"""
-    out = {}
-    def rec(c):
-        if isinstance(c, CondV) and c.kind == "and":
-            for a in c.args:
-                rec(a)
-        elif isinstance(c, CondV) and c.kind == "cmp":
-            op, l, rr = c.args
-            def role_of(p):
-                for a in p.atoms():
-                    if a[0] == "app" and a[1] in ("row", "col") and p == Poly.atom(a):
-                        return a[1]
-                return None
-            rl, rrr = role_of(l), role_of(rr)
-            if rrr and op == "<=":
-                out.setdefault(rrr, {})["lo"] = l
-            elif rrr and op == "<":
-                out.setdefault(rrr, {})["lo"] = l + 1
-            elif rl and op == "<":
-                out.setdefault(rl, {})["hi"] = rr
-            elif rl and op == "<=":
-                out.setdefault(rl, {})["hi"] = rr + 1
-            elif rl and op == ">=":
-                out.setdefault(rl, {})["lo"] = rr
-            elif rl and op == ">":
-                out.setdefault(rl, {})["lo"] = rr + 1
-            else:
-                out["?"] = True
-        else:
-            out["?"] = True
-    rec(cond)
-    return out
+from ..rules.layout import block_diag, mask_bounds
 
 
 def analyse(ctx, repo, prop):
@@ -359,8 +270,17 @@ def analyse(ctx, repo, prop):
         ctx.check(m == n_t, "LAYOUT", f"{tag}.blocks.count", "one lateral block per shell", where, witness=f"{m.pretty()} blocks")
         # the block is the unit-sphere matrix of this property
         src_name = None
+        cargs = None
+        dense_src = None
         if isinstance(A, Term) and A.op == "toarray":
-            o_, _ = underlying(A.args[0])
+            dense_src = A.args[0]
+        elif isinstance(A, Grid) and isinstance(A.elem, Num):
+            ents = [a for a in A.elem.p.atoms() if a[0] == "app" and a[1] == "entry"]
+            if len(ents) == 1 and A.elem.p == Poly.atom(ents[0]) and A.ndim == 2 and \
+                    ents[0][3] == Poly.atom(A.dims[0][0][0]) and ents[0][4] == Poly.atom(A.dims[1][0][0]):
+                dense_src = getattr(interp, "dense_of", {}).get(ents[0][2])
+        if dense_src is not None:
+            o_, _ = underlying(dense_src)
             if isinstance(o_, Term) and o_.op == "input":
                 src_name = o_.args[0].v
                 cargs = o_.kw.get("args")
